@@ -65,6 +65,12 @@ def native_check(cfg, env=None, seed=0, scale=1.0):
             if z is None or not C.close(z, want[i, j], tol):
                 fails.append(("single element call form disagrees for the pair (%d, %d)" % (i, j), None))
                 break
+    # one state against a batch
+    full_m = st.rho(space, space)
+    for i in (0, len(space) - 1):
+        row, col = st.rho(space[i], space, expand=False), st.rho(space, space[i], expand=False)
+        if tuple(row.shape) != tuple(full_m[:, i, :].shape) or not C.close(row.numpy(), full_m[:, i, :].numpy()) or not C.close(col.numpy(), full_m[:, :, i].numpy()):
+            fails.append(("rho(one state, batch, expand=False) / rho(batch, one state, expand=False) is not the row / column of the matrix", None))
     # a flag is a flag whatever object carries it: numpy / tensor booleans and 0 / 1 select the same call form as True / False
     for name, yes, no in (("numpy.bool_", np.True_, np.False_), ("int", 1, 0), ("0-d bool tensor", torch.tensor(True), torch.tensor(False))):
         full_y, pair_n = st.rho(space, space, expand=yes), st.rho(space, flip, expand=no)
